@@ -192,6 +192,7 @@ Fixpoint wf_sb (n : snode) : bool :=
   | SAntiJoin x _ | SFlatMap _ _ x => wf_sb x
   | SEnumerate x | SGen _ _ x => ord x && wf_sb x
   | SUnion x y | SJoin x y | SCross x y => wf_sb x && wf_sb y
+  | SJoinHalf x y => bounded_s y && (wf_sb x && wf_sb y)
   end.
 
 Inductive accode : Type := KPlus | KCount | KOther (f : val -> val -> val).
